@@ -11,7 +11,7 @@ func init() {
 		Sweep:  sweepMentions,
 		Extra:  c04Extra,
 		Filter: func(o *Obligation) bool { return o.Kind == "dep-recorded" || o.Kind == "dep-used" || o.Kind == "scan" || strings.Contains(o.Name, "dependency") || strings.Contains(o.Name, "C04 ") || (o.Kind == "structure" && strings.Contains(o.Name, "Decls")) || ((o.Kind == "frame" || o.Kind == "decreases") && (strings.HasPrefix(o.Func, "(Ctx).Decls") || o.Func == "filterImports")) }})
-	registerProp(&propSpec{ID: "C08", Patterns: []string{".", "./internal/coq", "./cmd/goose"}, Setup: translatorSetup})
+	registerProp(&propSpec{ID: "C08", Patterns: []string{".", "./internal/coq", "./cmd/goose"}, Setup: translatorSetup, Extra: c08Extra})
 	registerProp(&propSpec{ID: "C17", Patterns: []string{".", "./internal/coq", "./cmd/goose"}, Setup: translatorSetup})
 	registerProp(&propSpec{ID: "C07", Patterns: []string{".", "./internal/coq", "./cmd/goose"}, Setup: translatorSetup, Sweep: sweepContracts("C07")})
 	registerProp(&propSpec{ID: "C09", Patterns: []string{"./machine/disk", "./machine/async_disk"}})
